@@ -103,6 +103,18 @@ def corpus():
              rrule="FREQ=YEARLY;BYMONTH=3;BYDAY=-1SU"),
         dict(kind="STANDARD", dtstart=D(1996, 10, 27, 3), frm=7200, to=3600, name="CET",
              rrule="FREQ=YEARLY;BYMONTH=10;BYDAY=-1SU")])))
+    # siblings of the zone above: the same rules and the same UTC onset instants, other offsets and wall clocks (two
+    # observances whose DTSTART - TZOFFSETFROM coincide are still two observances)
+    out.append(("europe-east", vtz_text("X-EU-EAST", [
+        dict(kind="DAYLIGHT", dtstart=D(1981, 3, 29, 3), frm=7200, to=10800, name="EEST",
+             rrule="FREQ=YEARLY;BYMONTH=3;BYDAY=-1SU"),
+        dict(kind="STANDARD", dtstart=D(1996, 10, 27, 4), frm=10800, to=7200, name="EET",
+             rrule="FREQ=YEARLY;BYMONTH=10;BYDAY=-1SU")])))
+    out.append(("europe-west", vtz_text("X-EU-WEST", [
+        dict(kind="DAYLIGHT", dtstart=D(1981, 3, 29, 1), frm=0, to=3600, name="WEST",
+             rrule="FREQ=YEARLY;BYMONTH=3;BYDAY=-1SU"),
+        dict(kind="STANDARD", dtstart=D(1996, 10, 27, 2), frm=3600, to=0, name="WET",
+             rrule="FREQ=YEARLY;BYMONTH=10;BYDAY=-1SU")])))
     out.append(("rdate-repeats-dtstart", vtz_text("X-RD", [
         dict(kind="STANDARD", dtstart=D(2000, 1, 1), frm=0, to=-18000, name="S",
              rdates=[[D(2000, 1, 1), D(2001, 1, 1)], [D(2001, 1, 1)]]),
